@@ -155,7 +155,10 @@ class World:
         self.norm = norm_c12.Normaliser(self.findex, keep=KEEP, else_of_return=(r"Adjacency::Permutation::apply\b",))
         for fn in self.fns:
             if re.search(SCOPE_RE, fn.file):
-                self.norm.apply(fn)
+                try:
+                    self.norm.apply(fn)
+                except Exception as ex:          # a construct the normaliser trips over is "not modelled", never a crash of the check
+                    ck.incomplete("E2.safety", "normalisation of %s failed (%s: %s)" % (fn.full[:120], type(ex).__name__, str(ex)[:120]))
 
     def fk(self, fn):
         k = (fn.full, fn.file, fn.line)
@@ -1226,6 +1229,10 @@ def rule_permutation(w):
                     ck.incomplete("E13.perm-dispatch", "construction type %s has no table entry" % ename)
                     continue
                 want, fin = PERM_TABLE[ename]
+                want_alt = None
+                if ename == "inv_swap":
+                    # the same reverse transpositions with the position itself as loop variable (k = n-2 .. 0) instead of i-1 (i = n-1 .. 1)
+                    want_alt = {(a, i.replace("($0 - 1)", "$0"), v.replace("($0 - 1)", "$0")) for a, i, v in want}
                 writes = [e for e in evs if e.kind == "sub" and e.mode == "write" and e.arr.key in ("this._perm_pos", "this._swap_pos")]
                 got = {(e.arr.key, e.idx_canon, e.val_canon) for e in writes}
                 problems = []
@@ -1242,7 +1249,8 @@ def rule_permutation(w):
                 if unclear:
                     ck.incomplete("E13.perm-dispatch", "%s: %s" % (key, "; ".join(unclear)))
                     continue
-                if got != want:
+                shifted = want_alt is not None and got == want_alt
+                if got != want and not shifted:
                     problems.append("assignments {%s} differ from the documented conversion {%s}" % (
                         "; ".join("%s[%s] = %s" % x for x in sorted(got - want)) or "-", "; ".join("%s[%s] = %s" % x for x in sorted(want - got)) or "-"))
                 for e in writes:
@@ -1256,7 +1264,8 @@ def rule_permutation(w):
                             problems.append("loop %s does not cover [0,num_entries)" % lp.canon)
                     elif lp.kind == "down":
                         # i runs n-1 .. 1, the subscripts use i-1: positions n-2 .. 0 (the last swap position is a fixed point by definition)
-                        if not (lp.lo == 1 and fk.norm(lp.hi) in (n, n + 1)):
+                        okd = (lp.lo == 0 and fk.norm(lp.hi) == n - 1) if shifted else (lp.lo == 1 and fk.norm(lp.hi) in (n, n + 1))
+                        if not okd:
                             problems.append("count-down loop %s does not visit the positions num_entries-2 .. 0" % lp.canon)
                     if any(f.kind == "if" for f in e.frames):
                         problems.append("assignment %s[%s] is conditional" % (e.arr.key, e.idx_canon))
@@ -1265,10 +1274,11 @@ def rule_permutation(w):
                     sw = sorted([e for e in writes if any(f.loop is not None and f.loop.kind == "down" for f in e.frames if f.kind == "loop")], key=lambda e: e.seq)
                     if len(sw) == 2:
                         v2 = strip(sw[1].val)
-                        saved_ok = v2.get("k") == "Ref" and v2.get("dk") == "local" and sw[0].idx_canon == "($0 - 1)" and sw[1].val_canon == "this._perm_pos[($0 - 1)]"
+                        pos = "$0" if shifted else "($0 - 1)"
+                        saved_ok = v2.get("k") == "Ref" and v2.get("dk") == "local" and sw[0].idx_canon == pos and sw[1].val_canon == "this._perm_pos[%s]" % pos
                         if not saved_ok:
                             problems.append("the swap does not go through a saved copy of the element that is overwritten first")
-                    idl = [e for e in writes if e.idx_canon == "$0"]
+                    idl = [e for e in writes if e.idx_canon == "$0" and e not in sw]
                     if idl and sw and not idl[0].seq < sw[0].seq:
                         problems.append("identity initialisation does not precede the swapping")
                 calls = [e for e in evs if e.kind == "call" and e.obj == "this" and e.name in ("calc_swap_from_perm", "calc_perm_from_swap")]
